@@ -30,6 +30,8 @@ def consts_for_tlc(c):
         # harness/rec.go: writer id w is LevelSettable iff (w-1) % 4 in {2, 3}
         WantsLevel=set(c.get("wants_level", [w for w in range(1, 33) if (w - 1) % 4 in (2, 3)])),
         Acts=set(c["acts"]),
+        FailSets=[set(tuple(x) for x in fs) for fs in c.get("fail_sets", [[]])],
+        LogSevs=set(c.get("log_sevs", [])),
     )
 
 
@@ -45,6 +47,8 @@ def label_to_event(label):
         return dict(op="PkgSetLevel", l=0, k="", a=a[0], b=0)
     if name == "SetDefault":
         return dict(op="SetDefault", l=a[0], k="", a=0, b=0)
+    if name == "LogF":
+        return dict(op="LogF", l=a[0], k="", a=a[1], b=a[2])
     raise Undecided("unknown action label %r" % label)
 
 
@@ -86,6 +90,9 @@ def random_behaviours(c, rng, count, depth, max_loggers):
                 beh.append(dict(op="PkgSetLevel", l=0, k="", a=a, b=0))
             elif op == "SetDefault":
                 beh.append(dict(op="SetDefault", l=l, k="", a=0, b=0))
+            elif op == "LogF":
+                beh.append(dict(op="LogF", l=l, k="", a=rng.choice(sorted(c["log_sevs"])),
+                                b=rng.randint(1, len(c["fail_sets"]))))
             # ids are assigned by the worker in creation order; since some creations return an
             # existing logger, n is only an upper bound, so clamp receivers when executing
         res.append(beh)
@@ -145,7 +152,7 @@ def run_core(ctx, c, invariants, properties, obs, rand_count, rand_depth, rand_l
     script = dict(init_level=c["init_level"], obs=obs, probe_sevs=rc.get("probe_sevs", [4]),
                   gate_sevs=rc.get("gate_sevs", []), names=sorted(rc["names"]), bool_lists=rc["bool_lists"],
                   layouts=rc["layouts"], opt_lists=rc["opt_lists"], customs=rc.get("customs", []),
-                  behaviours=behaviours)
+                  fail_sets=rc.get("fail_sets", [[]]), behaviours=behaviours)
     sp = os.path.join(ctx.scratch, "script.json")
     with open(sp, "w") as fh:
         json.dump(script, fh)
